@@ -130,7 +130,9 @@ func cmdCodec(bw *bufio.Writer, n int, seed int64) {
 		}
 		prevIn = lastM
 		emit("msg_parse", ints(bz), obs)
-		lastM = ints(bz)
+		if len(bz) > 116 { // the most recent input that left a body in the receiver
+			lastM = ints(bz)
+		}
 		bb := rnd([]int{132, 132, 131, 133}[r.Intn(4)])
 		obsb := M{"res": "err", "fields": 0, "reenc": 0}
 		res = guard(func() {
